@@ -39,6 +39,7 @@ mod rng;
 mod sink;
 mod sweep;
 mod typed;
+mod tinfo;
 mod wire;
 
 use sink::Reply;
@@ -81,6 +82,7 @@ const EXECS: &[Exec] = &[
     c03::exec,
     c08d::exec,
     c03decl::exec,
+    tinfo::exec,
 ];
 
 /// Run one case (`op` + inputs) on the implementation: the first module that recognises the op answers.
@@ -99,9 +101,21 @@ fn generate(prop: &str, sink: &mut sink::Sink, rng: &mut rng::Rng, n: u64) -> bo
             c08d::generate(sink, rng, n);
         }
         "C09" => lang::generate(sink, rng, n, false, Some("o.c09")),
-        "C01" => typed::generate(sink, rng, n, "o.c01"),
-        "C02" => typed::generate(sink, rng, n, "o.c02"),
-        "C12" => typed::generate(sink, rng, n, "o.c12"),
+        "C01" => {
+            typed::generate(sink, rng, n, "o.c01");
+            typed::generate_env(sink, rng, n, "o.c01");
+            tinfo::generate(sink, rng, n);
+        }
+        "C02" => {
+            typed::generate(sink, rng, n, "o.c02");
+            typed::generate_env(sink, rng, n, "o.c02");
+            tinfo::generate(sink, rng, n);
+        }
+        "C12" => {
+            typed::generate(sink, rng, n, "o.c12");
+            typed::generate_env(sink, rng, n, "o.c12");
+            tinfo::generate(sink, rng, n);
+        }
         "C04" => sweep::generate(sink, rng, n, "o.c04.fn"),
         "C05" => sweep::generate(sink, rng, n, "o.c05.fn"),
         "C14" => c14::generate(sink, rng, n),
